@@ -113,8 +113,10 @@ def dict_call(mod, name):
     return {}
 
 
-BLOCK_SHAPES = {"max": "{z}.max()", "min": "{z}.min()", "sum": "{z}.sum()", "count": "_stats_count({z})",
-                "sum_squares": "({z}**2).sum()"}
+BLOCK_SHAPES = {"max": ["{z}.max()"], "min": ["{z}.min()"], "sum": ["{z}.sum()"], "count": ["_stats_count({z})"],
+                # the square is taken in float64 since the D23 repair (a square in the raster's own narrow
+                # integer dtype wraps around; the model's exact arithmetic corresponds to the float form only)
+                "sum_squares": ["({z}.astype(np.float64)**2).sum()", "({z}.astype(float)**2).sum()"]}
 
 
 def fact_block_stats(mod):
@@ -124,7 +126,7 @@ def fact_block_stats(mod):
     for k, lam in d.items():
         if not isinstance(lam, ast.Lambda) or len(lam.args.args) != 1:
             return False
-        if u(lam.body) != BLOCK_SHAPES[k].format(z=lam.args.args[0].arg):
+        if u(lam.body) not in [sh.format(z=lam.args.args[0].arg) for sh in BLOCK_SHAPES[k]]:
             return False
     return True
 
